@@ -723,6 +723,15 @@ Definition rename_one_error (s : fsys) (sv : sview) (co cn : list str) : Prop :=
   forall par name md e, klookup s sv false false (abs_path co) = WNeg par name md ->
                         klookup s sv false false (abs_path cn) <> WErr e.
 
+(* Rename's tests that precede the permission checks, for a source that is not a directory *)
+Lemma early_nondir (h : heap) (oc : nat) (X : option res) : node_is_dir h oc = false ->
+  match get h oc with Some (NDir _ _) => X | Some _ => None | None => None end = None.
+Proof. unfold node_is_dir. destruct (get h oc) as [[| |]|]; [discriminate|reflexivity..]. Qed.
+
+Lemma early_same (h : heap) (oc : nat) (X : option res) : node_is_dir h oc = false -> get h oc <> None ->
+  match get h oc with Some (NDir _ _) => X | Some _ => Some ROk | None => None end = Some ROk.
+Proof. unfold node_is_dir. destruct (get h oc) as [[| |]|]; [discriminate|reflexivity..|congruence]. Qed.
+
 Theorem dstep_rename_file_new (s : fsys) (sv : sview) (wo : list str) (clo : str) (w : list str) (cl : str) :
   dac_hyps s sv -> path_ok s sv SlLstat (wo ++ [clo]) -> path_ok s sv SlLstat (w ++ [cl]) ->
   source_not_dir s sv (wo ++ [clo]) -> dest_absent s sv (w ++ [cl]) -> rename_one_error s sv (wo ++ [clo]) (w ++ [cl]) ->
@@ -757,6 +766,7 @@ Proof.
       { apply str_eqb_neq. rewrite W3, V3. intros E. apply abs_path_inj in E; [|apply Forall_comp_ok_of; assumption..].
         apply app_inj_tail in E as (-> & ->). rewrite W4 in V4. injection V4 as ->. congruence. }
       rewrite O1, R1, V2, O5, O2, R3, R2, V1, W1, Hsame, Hocp. cbn [is_file_exists is_not_exist negb andb orb].
+      cbv iota. rewrite (early_nondir _ _ _ Hnd). cbv iota.
       rewrite (perm_on_write_searchable _ _ _ G3), (perm_on_write_searchable _ _ _ F3).
       rewrite G1, F1, Hnd. unfold may_delete. rewrite Hnd. cbn [negb andb orb].
       destruct (kperm (f_heap s) op 3 (v_user (sv_view sv))) eqn:Hpo; cbn [negb]; [|reflexivity].
@@ -799,23 +809,16 @@ Definition not_into_itself (s : fsys) (sv : sview) (co cn : list str) : Prop :=
     /\ is_prefix (pi_path (sr_pi (search_node s (sv_view sv) (abs_path co) SlLstat)) ++ [SLASH])
                  (pi_path (sr_pi (search_node s (sv_view sv) (abs_path cn) SlLstat))) = false.
 
-(* moving a directory to another directory needs write permission on it (listed: C03-RENAME-DIR-WRITE) *)
-Definition moved_dir_writable (s : fsys) (sv : sview) (co cn : list str) : Prop :=
-  forall opar okind oname oc npar nname md,
-    klookup s sv false false (abs_path co) = WNode opar okind oname oc ->
-    klookup s sv false false (abs_path cn) = WNeg npar nname md ->
-    opar = npar \/ kperm (f_heap s) oc 2 (v_user (sv_view sv)) = true.
-
+(* moving a directory to another directory needs write permission on it (EACCES), on both sides *)
 Theorem dstep_rename_dir_new (s : fsys) (sv : sview) (wo : list str) (clo : str) (w : list str) (cl : str) :
   dac_hyps s sv -> path_ok s sv SlLstat (wo ++ [clo]) -> path_ok s sv SlLstat (w ++ [cl]) ->
   source_is_dir s sv (wo ++ [clo]) -> dest_absent s sv (w ++ [cl]) -> rename_one_error s sv (wo ++ [clo]) (w ++ [cl]) ->
   not_into_itself s sv (wo ++ [clo]) (w ++ [cl]) ->
-  moved_dir_writable s sv (wo ++ [clo]) (w ++ [cl]) ->
   let o := abs_path (wo ++ [clo]) in
   let p := abs_path (w ++ [cl]) in
   (fst (rename s (sv_view sv) o p), proj_res Linux (snd (rename s (sv_view sv) o p))) = go_rename s sv o p.
 Proof.
-  intros H Hpo Hp Hnd Hab Hone Hni Hmw o p.
+  intros H Hpo Hp Hnd Hab Hone Hni o p.
   pose proof (dresolve s sv SlLstat (wo ++ [clo]) H Hpo) as Ro. pose proof (dresolve s sv SlLstat (w ++ [cl]) H Hp) as R.
   destruct Hpo as (Hgo & Hko1 & Hnfo). destruct Hp as (Hg & Hk1 & Hnf).
   change (follow_of SlLstat) with false in Ro, R, Hk1, Hko1. change (precise_of SlLstat) with true in Ro, R.
@@ -827,7 +830,7 @@ Proof.
   set (ro := search_node s (sv_view sv) (abs_path (wo ++ [clo])) SlLstat) in *.
   set (rn := search_node s (sv_view sv) (abs_path (w ++ [cl])) SlLstat) in *.
   unfold source_is_dir in Hnd. unfold dest_absent in Hab. unfold rename_one_error in Hone.
-  unfold not_into_itself in Hni. unfold moved_dir_writable in Hmw.
+  unfold not_into_itself in Hni.
   destruct (klookup s sv false false (abs_path (w ++ [cl]))) as [par kind name n|par name md| |e] eqn:HK; cbn [walk_rel] in R;
     [exfalso; exact (Hab _ _ _ _ eq_refl)| |destruct R|].
   - pose proof (Hkg _ _ _ eq_refl) as ->. destruct Hfin as (F1 & F2 & F3). destruct R as (R1 & R2 & R3 & R4).
@@ -837,7 +840,7 @@ Proof.
       destruct Ro as (O1 & O2 & O3 & _ & _ & O4). destruct (O4 eq_refl) as (O5 & O6).
       destruct (at_name_views _ _ _ _ _ _ (O6 eq_refl)) as (W1 & W2 & do & W3 & W4 & W5).
       specialize (Hnd _ _ _ _ eq_refl).
-      destruct (Hni _ _ _ _ _ _ _ eq_refl eq_refl) as (N1 & N2). specialize (Hmw _ _ _ _ _ _ _ eq_refl eq_refl).
+      destruct (Hni _ _ _ _ _ _ _ eq_refl eq_refl) as (N1 & N2).
       assert (Hne : oc <> op).
       { intros ->. apply (ww_acyclic _ (dh_wf _ _ H) op). exists op, clo. split; [constructor|]. apply alookup_in. exact G1. }
       destruct (node_is_dir_get _ _ Hnd) as (cho & mo & Hgoc).
@@ -852,9 +855,14 @@ Proof.
       * rewrite Hpo, Nat.eqb_refl. cbn [negb andb fst snd proj_res].
         rewrite (move_comm _ _ _ _ _ _ G2 F2) by (intros _ ->; congruence). reflexivity.
       * destruct (kperm (f_heap s) par 3 (v_user (sv_view sv))); cbn [negb]; [|reflexivity].
-        destruct Hmw as [->|Hw]; [congruence|]. rewrite Hw.
+        rewrite (check_permission_node _ _ _ OpenWrite _ Hgoc). change (N.land OpenWrite 7) with 2%N.
         replace (Nat.eqb op par) with false by (symmetry; apply Nat.eqb_neq; congruence).
-        cbn [negb andb fst snd proj_res]. rewrite (move_comm _ _ _ _ _ _ G2 F2) by (intros E; congruence). reflexivity.
+        assert (Hk : negb (us_admin (v_user (sv_view sv))) && negb (kperm (f_heap s) oc 2 (v_user (sv_view sv)))
+                     = negb (kperm (f_heap s) oc 2 (v_user (sv_view sv)))).
+        { unfold kperm. rewrite Hgoc. destruct (us_admin (v_user (sv_view sv))); reflexivity. }
+        cbn [negb andb]. rewrite Hk.
+        destruct (kperm (f_heap s) oc 2 (v_user (sv_view sv))); cbn [negb andb fst snd proj_res]; [|reflexivity].
+        rewrite (move_comm _ _ _ _ _ _ G2 F2) by (intros E; congruence). reflexivity.
     + destruct Ro as (O1 & _). pose proof (Hokg _ _ _ eq_refl) as ->. destruct Hofin as (G1 & _).
       rewrite O1, G1. reflexivity.
     + destruct Ro.
@@ -890,21 +898,14 @@ Definition dest_nondir (s : fsys) (sv : sview) (cs : list str) : Prop :=
     node_is_dir (f_heap s) n = false /\ has (m_mode (meta_of (f_heap s) n)) MODE_DIR = false.
 Definition dest_present (s : fsys) (sv : sview) (cs : list str) : Prop :=
   exists par kind name n, klookup s sv false false (abs_path cs) = WNode par kind name n.
-(* not the same object under two names (listed: C03-RENAME-SAME) *)
-Definition distinct_nodes (s : fsys) (sv : sview) (co cn : list str) : Prop :=
-  forall opar okind oname oc npar nkind nname nc,
-    klookup s sv false false (abs_path co) = WNode opar okind oname oc ->
-    klookup s sv false false (abs_path cn) = WNode npar nkind nname nc -> oc <> nc.
-
 Theorem dstep_rename_replace_result (s : fsys) (sv : sview) (wo : list str) (clo : str) (w : list str) (cl : str) :
   dac_hyps s sv -> path_ok s sv SlLstat (wo ++ [clo]) -> path_ok s sv SlLstat (w ++ [cl]) ->
   source_not_dir s sv (wo ++ [clo]) -> dest_present s sv (w ++ [cl]) -> dest_nondir s sv (w ++ [cl]) ->
-  distinct_nodes s sv (wo ++ [clo]) (w ++ [cl]) ->
   let o := abs_path (wo ++ [clo]) in
   let p := abs_path (w ++ [cl]) in
   proj_res Linux (snd (rename s (sv_view sv) o p)) = snd (go_rename s sv o p).
 Proof.
-  intros H Hpo Hp Hnd (npar & nkind & nname & nc & HK) Hdn Hdist o p.
+  intros H Hpo Hp Hnd (npar & nkind & nname & nc & HK) Hdn o p.
   pose proof (dresolve s sv SlLstat (wo ++ [clo]) H Hpo) as Ro. pose proof (dresolve s sv SlLstat (w ++ [cl]) H Hp) as R.
   destruct Hpo as (Hgo & Hko1 & Hnfo). destruct Hp as (Hg & Hk1 & Hnf).
   change (follow_of SlLstat) with false in Ro, R, Hk1, Hko1. change (precise_of SlLstat) with true in Ro, R.
@@ -915,7 +916,7 @@ Proof.
   unfold o, p, rename, go_rename, k_stat, k_rename, win. rewrite (dh_os _ _ H). cbn [ostype_eqb]. rewrite Hopm, Hpm.
   set (ro := search_node s (sv_view sv) (abs_path (wo ++ [clo])) SlLstat) in *.
   set (rn := search_node s (sv_view sv) (abs_path (w ++ [cl])) SlLstat) in *.
-  unfold source_not_dir in Hnd. unfold dest_nondir in Hdn. unfold distinct_nodes in Hdist.
+  unfold source_not_dir in Hnd. unfold dest_nondir in Hdn.
   rewrite HK in *. cbn [walk_rel] in R.
   destruct (Hkn _ _ _ _ eq_refl) as (-> & ->). destruct Hfin as (F1 & F2 & F3).
   destruct R as (R1 & R2 & R3 & _ & _ & R4). destruct (R4 eq_refl) as (R5 & R6).
@@ -928,16 +929,20 @@ Proof.
   - destruct (Hokn _ _ _ _ eq_refl) as (-> & ->). destruct Hofin as (G1 & G2 & G3).
     destruct Ro as (O1 & O2 & O3 & _ & _ & O4). destruct (O4 eq_refl) as (O5 & O6).
     destruct (at_name_views _ _ _ _ _ _ (O6 eq_refl)) as (W1 & W2 & do & W3 & W4 & W5).
-    specialize (Hnd _ _ _ _ eq_refl). specialize (Hdist _ _ _ _ _ _ _ _ eq_refl eq_refl).
+    specialize (Hnd _ _ _ _ eq_refl).
     assert (Hocp : Nat.eqb oc op = false) by (apply Nat.eqb_neq; intros ->; congruence).
-    assert (Hsame : str_eqb (pi_path (sr_pi ro)) (pi_path (sr_pi rn)) = false).
-    { apply str_eqb_neq. rewrite W3, V3. intros E. apply abs_path_inj in E; [|apply Forall_comp_ok_of; assumption..].
+    assert (Hsame : Nat.eqb nc oc = false -> str_eqb (pi_path (sr_pi ro)) (pi_path (sr_pi rn)) = false).
+    { intros Hd. apply Nat.eqb_neq in Hd. apply str_eqb_neq. rewrite W3, V3. intros E.
+      apply abs_path_inj in E; [|apply Forall_comp_ok_of; assumption..].
       apply app_inj_tail in E as (-> & ->). rewrite W4 in V4. injection V4 as ->. congruence. }
-    rewrite O1, R1, O5, O2, R5, R2, Hsame, Hocp. cbn [is_file_exists is_not_exist negb andb orb].
-    rewrite (perm_on_write_searchable _ _ _ G3), (perm_on_write_searchable _ _ _ F3).
+    rewrite O1, R1, O5, O2, R5, R2, Hocp. cbn [is_file_exists is_not_exist negb andb orb].
     rewrite G1, F1, Hnd. cbn [negb andb orb].
     rewrite (is_ancestor_nondir _ _ _ Hncd) by (intros ->; rewrite G2 in Hncd; discriminate Hncd).
-    replace (Nat.eqb nc oc) with false by (symmetry; apply Nat.eqb_neq; congruence).
+    (* the same object under two names: both sides answer success before any permission check *)
+    destruct (Nat.eqb nc oc) eqn:Hncoc.
+    { rewrite orb_true_r. cbv iota. rewrite (early_same _ _ _ Hnd O3). reflexivity. }
+    rewrite (Hsame eq_refl). cbn [orb]. cbv iota. rewrite (early_nondir _ _ _ Hnd). cbv iota.
+    rewrite (perm_on_write_searchable _ _ _ G3), (perm_on_write_searchable _ _ _ F3).
     unfold may_delete. rewrite Hnd, Hncd.
     assert (Hne : dir_nonempty (f_heap s) nc = false).
     { unfold dir_nonempty, node_is_dir in *. destruct (get (f_heap s) nc) as [[? ?|? ? ? ?|? ?]|]; try reflexivity. discriminate Hncd. }
@@ -1018,8 +1023,7 @@ Definition dcovered (phl : bool) (vi : nat) (sw : sworld) (c : call) : Prop :=
         /\ dest_absent s sv (w ++ [cl])
         /\ rename_one_error s sv (wo ++ [clo]) (w ++ [cl])
         /\ (source_not_dir s sv (wo ++ [clo])
-            \/ (source_is_dir s sv (wo ++ [clo]) /\ not_into_itself s sv (wo ++ [clo]) (w ++ [cl])
-                /\ moved_dir_writable s sv (wo ++ [clo]) (w ++ [cl])))
+            \/ (source_is_dir s sv (wo ++ [clo]) /\ not_into_itself s sv (wo ++ [clo]) (w ++ [cl])))
   | COpenFile vi' p flag _ => vi' = vi /\ open_covered s sv p flag
   | _ => False
   end.
@@ -1120,9 +1124,9 @@ Proof.
         by (unfold wstep, on_view; rewrite Hv; reflexivity).
       apply (impl_lift w _ _ E); [left; discriminate|exact I].
     + reflexivity.
-    + rewrite <- Hfs, Eo, Ep. destruct Hkind as [Hnd|(Hd & Hni & Hmw)].
+    + rewrite <- Hfs, Eo, Ep. destruct Hkind as [Hnd|(Hd & Hni)].
       * exact (dstep_rename_file_new (sw_fs sw) (sw_sv sw) wo clo ww cl H Hpo Hp Hnd Hab Hone).
-      * exact (dstep_rename_dir_new (sw_fs sw) (sw_sv sw) wo clo ww cl H Hpo Hp Hd Hab Hone Hni Hmw).
+      * exact (dstep_rename_dir_new (sw_fs sw) (sw_sv sw) wo clo ww cl H Hpo Hp Hd Hab Hone Hni).
   - (* Link *)
     destruct Hc as (-> & co & ww & cl & Eo & Ep & Hpo & Hp & Hns & Hph).
     apply (dworld_of_lift phl w vi sw Ha _ (link (w_fs w) (sv_view (sw_sv sw)) o n) (k_link phl (sw_fs sw) (sw_sv sw) o n)).
